@@ -291,3 +291,26 @@ impl std::fmt::Debug for Zst {
         write!(f, "Zst")
     }
 }
+
+/// A 1104-byte drop-tracked value (element sizes above 1024 bytes take their own
+/// branch of the list's growth policy). The padding repeats a word derived from the
+/// payload, so a torn or partial copy is recognisable.
+#[derive(Clone, PartialEq, Debug)]
+pub struct Big {
+    pub inner: T24,
+    pad: [u64; 135],
+}
+
+impl Big {
+    pub fn new(payload: u64) -> Self {
+        Big { inner: T24::new(payload), pad: [payload.wrapping_mul(0x9E37_79B9_7F4A_7C15) | 1; 135] }
+    }
+    pub fn checked_payload(&self) -> Result<u64, String> {
+        let p = self.inner.checked_payload()?;
+        let want = p.wrapping_mul(0x9E37_79B9_7F4A_7C15) | 1;
+        match self.pad.iter().position(|&w| w != want) {
+            None => Ok(p),
+            Some(i) => Err(format!("large element with payload {p}: padding word {i} is {:#x}, expected {want:#x} (torn or partial copy)", self.pad[i])),
+        }
+    }
+}
